@@ -216,6 +216,14 @@ func (e *PSEnv) assume(cond ssa.Value, val bool) bool {
 	if k, ok := c.(*ssa.Const); ok && k.Value != nil {
 		return (k.Value.String() == "true") == val
 	}
+	// seeded facts (the scenario being evaluated) take precedence over anything inferred
+	if len(e.sticky) > 0 {
+		if key, kneg, ok := e.condKey(c); ok {
+			if fixed, seeded := e.sticky[key]; seeded {
+				return fixed == (val != kneg)
+			}
+		}
+	}
 	// comparisons of integer constants (loop counters of `for range N`) are decided outright
 	if op, x, y, isCmp := Cmp(c); isCmp {
 		if a, okA := e.intValue(x, 0); okA {
